@@ -83,7 +83,7 @@ chk("C16", "h_pg + texelutil (real program)",
     "DESIGN.md section 3 C16")
 chk("C17", "h_rules + h_pgn + texel(asan) + h_fuzz",
     "runtime round-trip monitors with independent writer/model (move text, PGN trees) and sanitizer-guarded mutation fuzzing of every text entry point (FEN, move text, UCI move, PGN, numbers, live UCI command lines incl. edge-of-int go parameters); engine-printed move text compared with the forced move for every promotion/castling/e.p. move; libFuzzer in the thorough tier",
-    "Held on every generated case (3e6 quick; 7e7+ thorough). The PGN oracle's sensitivity is self-tested on each run (damaged expectations must all be noticed).",
+    "Held on every generated case (3e6 quick; 4e7+ thorough). The PGN oracle's sensitivity is self-tested on each run (damaged expectations must all be noticed).",
     "refchess; ASan/UBSan/_GLIBCXX_ASSERTIONS see executed paths only; resource options excluded from UCI garbage",
     "DESIGN.md section 3 C17")
 chk("C07", "h_eval (generic, SSSE3, AVX2, AVX-512, ASan builds) + evaluator hook in real searches",
@@ -98,7 +98,7 @@ chk("C08", "h_tt (rel, ASan, TSan)",
     "DESIGN.md section 3 C08")
 chk("C09", "texel, texelutil, h_tt (ThreadSanitizer builds)",
     "happens-before race detection (ThreadSanitizer) over random multi-threaded UCI sessions, proof-game filter runs with worker pools (also resuming from a damaged intermediate file, so that pool tasks throw) and the TT hammer; every report is a violation, de-duplicated by message and engine frames",
-    "Held on every session/run executed (48 sessions + filter runs quick; 2000 sessions thorough). TSan judges by happens-before analysis, so a race is reported even when the accesses did not collide in time; it only sees pairs of accesses that executed.",
+    "Held on every session/run executed (48 sessions + filter runs quick; 500 sessions thorough). TSan judges by happens-before analysis, so a race is reported even when the accesses did not collide in time; it only sees pairs of accesses that executed.",
     "TSan intercepts all synchronisation used (std::mutex/condition_variable/thread, atomics); Syzygy fence code never executes without tablebase files",
     "DESIGN.md section 3 C09")
 chk("C18", "h_book (ASan+rel) + texel OwnBook slice",
@@ -108,12 +108,12 @@ chk("C18", "h_book (ASan+rel) + texel OwnBook slice",
     "DESIGN.md section 3 C18", category="fault_enumeration")
 chk("C06", "h_cos (engine in-process under cosched, virtual clock)",
     "runtime trace monitor under a virtual clock: limits handed to the search (hook), every stop test of the main search thread (hook) and time-stamped output are checked against the budget derived from the go command; deterministic per (script, seed)",
-    "Held on every timed search run (about 430 quick / 2e4 thorough) across the time-control grid; 'one polling interval' is measured per process from the observed stop tests (a MaxNPS throttle sleep inside a stop test counts while the node-rate cap justifies it), so retuning the poll frequency cannot raise an alarm.",
+    "Held on every timed search run (about 430 quick / 9e3 thorough) across the time-control grid; 'one polling interval' is measured per process from the observed stop tests (a MaxNPS throttle sleep inside a stop test counts while the node-rate cap justifies it), so retuning the poll frequency cannot raise an alarm.",
     "virtual time = nodes of the main search thread (100 per ms) + sleeps; 2 ms allowance for the engine's millisecond truncation; hooks H1-H3",
     "DESIGN.md section 3 C06")
 chk("C10", "h_cos (engine in-process under cosched)",
     "runtime trace monitor under a deterministic cooperative scheduler that owns every blocking point (pthread interposition): seeded uniform-random and PCT schedules with pre-emption points every 64 nodes, before every condition wait (mutex still held) and after every notification; offline checker over the recorded event trace (exactly-once bestmove, helpers idle at search end, job/root attribution of accepted helper results, no stale work); deadlock = no runnable thread",
-    "Held on every (script, seed) run (320 quick / 3e4 thorough; every run a distinct schedule digest). Interleavings are sampled, not enumerated: no exhaustive pre-emption-bounded exploration is claimed. A lost-wake-up mutant of Notifier::wait is flagged as a logical deadlock in >90% of the runs, a lock-free notify in 45%, notify-before-flag in 8%.",
+    "Held on every (script, seed) run (320 quick / 8e3 thorough; every run a distinct schedule digest). Interleavings are sampled, not enumerated: no exhaustive pre-emption-bounded exploration is claimed. A lost-wake-up mutant of Notifier::wait is flagged as a logical deadlock in >90% of the runs, a lock-free notify in 45%, notify-before-flag in 8%.",
     "the scheduler serialises threads (no weak-memory effects, no data races - those are C09); hooks H5 provide the events; virtual clock",
     "DESIGN.md section 3 C10")
 
